@@ -555,19 +555,22 @@ impl Terminal for UnixTerminal {
         self.execute(TerminalCommand::CursorGet)?;
         self.execute(TerminalCommand::DeviceAttrs)?; // sync event
         let mut pos = Position::origin();
-        while let Some(event) = self.poll(None)? {
-            match event {
-                TerminalEvent::DeviceAttrs(..) => {
-                    self.events_queue.extend(queue);
-                    return Ok(pos);
-                }
-                TerminalEvent::CursorPosition(term_pos) => {
+        let result = loop {
+            match self.poll(None) {
+                Ok(Some(TerminalEvent::DeviceAttrs(..))) | Ok(None) => break Ok(pos),
+                Ok(Some(TerminalEvent::CursorPosition(term_pos))) => {
                     pos = term_pos;
                 }
-                event => queue.push(event),
+                Ok(Some(event)) => queue.push(event),
+                Err(error) => break Err(error),
             }
+        };
+        // events received while waiting for the response must not be lost (even
+        // if waiting has failed), and they are older than anything still queued
+        for event in queue.into_iter().rev() {
+            self.events_queue.push_front(event);
         }
-        Ok(pos)
+        result
     }
 
     fn waker(&self) -> TerminalWaker {
